@@ -64,6 +64,7 @@ def main():
     samples = []
     known = req.get("known", [])  # lists of substrings: failures matching one of them are recorded findings
     known_failures = []
+    known_count = {}
     for _ in range(n):
         if time.time() > t_end:
             break
@@ -86,8 +87,10 @@ def main():
         if ok is not True:
             rec = {"args": jsonable(args), "ok": ok, "detail": jsonable(detail)}
             text = json.dumps(rec["args"], sort_keys=True) + " " + json.dumps(rec["detail"])
-            if ok is False and any(all(m in text for m in ms) for ms in known):
-                if len(known_failures) < 3:
+            hit = next((k for k, ms in enumerate(known) if all(m in text for m in ms)), None) if ok is False else None
+            if hit is not None:
+                known_count[hit] = known_count.get(hit, 0) + 1
+                if known_count[hit] <= 2:  # two witnesses per recorded finding are enough
                     known_failures.append(rec)
                 continue
             failures.append(rec)
